@@ -33,6 +33,19 @@ func c10Marker() *curve.EdwardsPoint {
 	return p
 }
 
+// c10ActsAsIdentity checks that p is the identity in ALL coordinates, not only
+// in the ones an encoding or IsIdentity looks at: B + p, p + p and B - p must be
+// B, the identity and B (a stale T coordinate shows up in the additions).
+func c10ActsAsIdentity(p *curve.EdwardsPoint) bool {
+	B := curve.ED25519_BASEPOINT_POINT
+	bEnc := c10Marshal(B)
+	return bytes.Equal(c10Marshal(curve.NewEdwardsPoint().Add(B, p)), bEnc) &&
+		bytes.Equal(c10Marshal(curve.NewEdwardsPoint().Add(p, B)), bEnc) &&
+		bytes.Equal(c10Marshal(curve.NewEdwardsPoint().Sub(B, p)), bEnc) &&
+		bytes.Equal(c10Marshal(curve.NewEdwardsPoint().Add(p, p)), c10IdentityBytes) &&
+		p.IsTorsionFree() && p.IsSmallOrder()
+}
+
 func c10Marshal(p *curve.EdwardsPoint) []byte {
 	b, err := p.MarshalBinary()
 	if err != nil {
@@ -177,6 +190,8 @@ func c10CheckDec(c c10DecCase) h.Result {
 	} else {
 		if !recv.IsIdentity() || !bytes.Equal(c10Marshal(recv), c10IdentityBytes) {
 			r.Fail("EdwardsPoint.UnmarshalBinary:receiver-not-identity-on-error", "in=%x receiver=%x", in, c10Marshal(recv))
+		} else if !c10ActsAsIdentity(recv) {
+			r.Fail("EdwardsPoint.UnmarshalBinary:receiver-encodes-as-identity-but-does-not-act-as-identity", "in=%x: B+recv != B (stale coordinate left in the receiver)", in)
 		}
 	}
 
@@ -321,6 +336,8 @@ func c10CheckLenBytes(r *h.R, in []byte) {
 		}
 		if !recv.IsIdentity() {
 			r.Fail("EdwardsPoint.UnmarshalBinary:receiver-not-identity-on-error", "len=%d receiver=%x", n, c10Marshal(recv))
+		} else if !c10ActsAsIdentity(recv) {
+			r.Fail("EdwardsPoint.UnmarshalBinary:receiver-encodes-as-identity-but-does-not-act-as-identity", "len=%d: B+recv != B (stale coordinate left in the receiver)", n)
 		}
 	}
 
